@@ -50,7 +50,7 @@ def invariant(V, mc, pes, tag, info):
 
 
 def sc_trial(V, driver="Canonical", table="d", n=2, fixed=(), check=False, calc="caching", molecular=False, coin=False):
-    info = f"{driver}:{table}:n={n}:calc={calc}:check={check}:mol={molecular}"
+    info = f"{driver}:{table}:n={n}:calc={calc}:check={check}:mol={molecular}" + (f":fixed={fixed if isinstance(fixed, str) else list(fixed)}" if fixed else "")
     mc, atoms, pes, move, labels, exch = c03.build(V, driver, table, n, fixed, check, calc, molecular, False, coin)
     calcobj = atoms.calc
     invariant(V, mc, pes, "initial", info)
@@ -193,6 +193,9 @@ def _plan(tier):
         P.append(("trial", dict(driver="Isobaric", table="cell", n=2, check=False, calc=ck), R))
         P.append(("trial", dict(driver="GrandCanonical", table="e", n=2, check=False, calc=ck), R))
     P.append(("trial", dict(driver="Isotension", table="shape", n=1 if q else 2, check=False, calc="caching"), R))
+    # constrained atoms that a trial nevertheless moves (a cell move rescales fixed atoms too)
+    P.append(("trial", dict(driver="Isobaric", table="cell", n=2, fixed=(0,), check=False, calc="caching"), R))
+    P.append(("trial", dict(driver="Canonical", table="d", n=2, fixed="com", check=True, calc="caching"), R + ("failed",)))
     P.append(("trial", dict(driver="Isobaric", table="d+cell", n=2, check=False, calc="caching"), R))
     P.append(("trial", dict(driver="GrandCanonical", table="d", n=2, check=False, calc="neighbourlist"), R))
     P.append(("trial", dict(driver="GrandCanonical", table="e", n=2, check=True, calc="caching"), R + ("failed",)))
